@@ -1016,6 +1016,44 @@ Proof. induction 1 as [|c l Hc _ IH]; [reflexivity|]. cbn [has_anxt existsb]. re
 Lemma ser_normal_closed n : closed_raw (ser_normal n).
 Proof. unfold ser_normal. cbv zeta. eexists _, (mk FEND []). split; [rewrite !app_assoc; reflexivity|reflexivity]. Qed.
 
+(* the append on an archive the writer produced from ANY chunk lists without archive markers: exactly the archive of
+   the extended list (C18_append_in_place without the premise that the chunk lists are single well-formed entries) *)
+Lemma append_at_written num raws news : num < 2 ^ 32 -> Forall wf_chunk (concat raws) ->
+  Forall (fun c => ty_is c AEND = false) (concat raws) ->
+  append_at (write_raw_archive num raws) news = Ok (write_raw_archive num (raws ++ news), has_anxt (concat raws)).
+Proof.
+  intros Hn Hw Ha.
+  assert (R : run_ok (concat raws) (mk AEND [])) by (split; [exact Hw|split; [exact Ha|split; [exact wf_chunk_aend|reflexivity]]]).
+  assert (EW : forall l, write_raw_archive num l = file_of (hdr_chunk num) (concat l) (mk AEND []) []).
+  { intros l. unfold file_of. rewrite app_nil_r, write_raw_archive_eq, write_header_eq, ser_entries_concat, <- !app_assoc. reflexivity. }
+  pose proof (hdr_ok_written num Hn) as Hh.
+  unfold append_at. rewrite (EW raws). unfold file_of at 1. rewrite (read_header_hdr _ _ _ Hh). cbn [bind].
+  rewrite (seek_run _ _ [] R). cbn [bind]. f_equal. f_equal.
+  destruct (overwrite_file (hdr_chunk num) (mk_hdr num) (concat raws) (mk AEND []) [] news Hh R) as (OW & _ & _ & _).
+  cbv zeta in OW. rewrite OW, EW, concat_app. f_equal. apply skipn_all2.
+  unfold file_of. rewrite app_assoc, app_length, (hdr_len _ _ Hh), !app_length.
+  change (ser_chunk (mk AEND [])) with finalize. rewrite finalize_len, len_nat. cbn [length]. lia.
+Qed.
+
+(* archives written from writable entries (Wf: what the strict recogniser accepts, C14) stay such under append: the
+   form `write_raw_archive 0 (map ser_entry xs)` with writable xs is kept by append and by delete, so the
+   premises of the delete theorems hold along a history of appends and deletes *)
+Theorem append_written_wf es new : Forall WfWriterFacts.writable es -> Forall WfWriterFacts.writable new ->
+  append_at (write_raw_archive 0 (map ser_entry es)) (map ser_entry new)
+    = Ok (write_raw_archive 0 (map ser_entry (es ++ new)), false) /\
+  Wf.wf_archive (write_raw_archive 0 (map ser_entry (es ++ new))) = true /\
+  read_archive (write_raw_archive 0 (map ser_entry (es ++ new))) = Ok (map normalize_entry (es ++ new)).
+Proof.
+  intros We Wn. pose proof (WfWriterFacts.written_body_chunks _ We) as BC.
+  rewrite append_at_written; [|reflexivity| |].
+  - rewrite no_anxt_has by (eapply Forall_impl; [|exact BC]; intros c Hc; apply Hc). rewrite <- map_app.
+    split; [reflexivity|].
+    destruct (WfWriterFacts.writer_wf (es ++ new)) as (WA & SD); [apply Forall_app; split; assumption|].
+    split; [exact WA|]. apply WfAgreeFacts.strict_agrees in SD. unfold read_archive. rewrite SD. reflexivity.
+  - eapply Forall_impl; [|exact BC]. intros c Hc. apply Hc.
+  - eapply Forall_impl; [|exact BC]. intros c Hc. apply Hc.
+Qed.
+
 Section Delete.
 Variables E D : encryption -> bytes -> bytes -> bytes.
 Variable decompress : compression -> bytes -> res bytes.
